@@ -37,6 +37,9 @@ def slice_inputs(inp, idx):
     for key in ("comp", "mech"):
         if key in inp:
             out[key] = {name: {f: [v[i] for i in idx] for f, v in d.items()} for name, d in inp[key].items()}
+    for key, v in inp.items():          # how the series are handed over (dtypes, shared objects …) stays the same
+        if key not in out and key not in ("n", "dt", "breaker", "comp", "mech"):
+            out[key] = v
     return out
 
 
